@@ -7,6 +7,7 @@ mod drive;
 mod engine;
 mod findings;
 mod gen_prog;
+mod playground;
 mod props;
 mod refsem;
 mod util;
@@ -57,6 +58,7 @@ fn main() {
             let i: u64 = args[5].parse().unwrap();
             println!("{}", spaces[sp].describe(i));
         }
+        "solo" if args.len() == 3 => props::c14::solo_main(args[2].parse().unwrap()),
         "replay" if args.len() == 4 => {
             let code = replay(&args[2], &args[3]);
             std::process::exit(code);
@@ -134,7 +136,7 @@ fn check(prop: &str, tier: Tier) -> i32 {
     let exhaustive = evaluations == space_size && report.caps_hit.is_empty();
     let mut samples: Vec<J> = Vec::new();
     for s in &report.spaces {
-        for x in s.samples.iter().take(2) {
+        for x in s.samples.iter().take(if s.size <= 40 { 40 } else { 2 }) {
             samples.push(json!({"space": s.id, "case": x}));
         }
     }
